@@ -69,6 +69,19 @@ def w_effects(job):
             res[name] = (got, err, len(c.out[0]), len(c.out[1]), c.new)
             for f in c.new:
                 os.remove(f)
+        # the same report requested twice in a row in one directory: still only the documented file
+        with Capture() as c2:
+            try:
+                ColorPair(text, bg, large).make_readable(mode=mode, very_readable=very, save_report=True)
+                ColorPair(text, bg, large).make_readable(mode=mode, very_readable=very, save_report=True)
+                make_readable_bulk([(text, bg, large), ("#777", "#fff")], mode=mode, very_readable=very, save_report=True)
+                make_readable_bulk([(text, bg, large), ("#777", "#fff")], mode=mode, very_readable=very, save_report=True)
+                err2 = None
+            except Exception as ex:  # noqa
+                err2 = type(ex).__name__ + ": " + str(ex)[:150]
+        res["twice"] = (err2, sorted(os.listdir(".")))
+        for f in os.listdir("."):
+            os.remove(f)
         with Capture() as c:
             try:
                 got = make_readable_bulk([(text, bg, large), ("#777", "#fff")], mode=mode, very_readable=very, save_report=True)
@@ -138,6 +151,11 @@ def check(run):
             want = pred[(1 if r["valid"] else 0, 1 if name in ("show", "both") else 0, 1 if name in ("save", "both") else 0)]
             if (o > 0, sorted(new)) != want:
                 run.diverge("observed effects==Cm.mrEffects", case, [name, o > 0, sorted(new)], list(want))
+        err2, listing = r["twice"]
+        if err2:
+            run.violation("save_report raised when repeated in the same directory", case, got=err2)
+        elif any(f not in DOCUMENTED.values() for f in listing):
+            run.violation("repeating save_report in one directory leaves a file other than the documented reports", case, files=listing)
         same, err, new = r["bulk_save"]
         if err:
             run.violation("make_readable_bulk(save_report=True) raised", case, got=err)
